@@ -296,19 +296,12 @@ func (e *Engine) checkBypassPredicate(r *Report, P *ssa.Function) {
 		for _, f := range e.calleesOf(c) {
 			if len(f.Params) >= 3 {
 				// gas allowance: len(msgs) * allowance >= gas
-				okG := false
-				allInstrs(f, func(i ssa.Instruction) {
-					bo, ok := i.(*ssa.BinOp)
-					if !ok || (bo.Op != token.GEQ && bo.Op != token.LEQ) {
-						return
-					}
-					prod, gas := bo.X, bo.Y
-					if bo.Op == token.LEQ {
-						prod, gas = bo.Y, bo.X
-					}
-					m, ok := prod.(*ssa.BinOp)
+				// every return of the predicate is the constant false or `len(msgs) * allowance >= gas` in one of its equivalent
+				// spellings (operands swapped, negated strict comparison)
+				isProd := func(v ssa.Value) bool {
+					m, ok := stripConv(v).(*ssa.BinOp)
 					if !ok || m.Op != token.MUL {
-						return
+						return false
 					}
 					hasLen, hasField := false, false
 					for _, o := range []ssa.Value{m.X, m.Y} {
@@ -322,10 +315,44 @@ func (e *Engine) checkBypassPredicate(r *Report, P *ssa.Function) {
 							hasField = true
 						}
 					}
-					if _, isPar := stripConv(gas).(*ssa.Parameter); isPar && hasLen && hasField {
-						okG = true
+					return hasLen && hasField
+				}
+				isGas := func(v ssa.Value) bool {
+					_, isPar := stripConv(v).(*ssa.Parameter)
+					return isPar
+				}
+				okG, nret := true, 0
+				for _, b := range f.Blocks {
+					ret, ok := b.Instrs[len(b.Instrs)-1].(*ssa.Return)
+					if !ok || len(ret.Results) != 1 {
+						continue
 					}
-				})
+					nret++
+					v, pol := ret.Results[0], true
+					for {
+						u, isU := v.(*ssa.UnOp)
+						if !isU || u.Op != token.NOT {
+							break
+						}
+						v, pol = u.X, !pol
+					}
+					if bv, isC := constBool(v); isC && bv != pol {
+						continue // constant false
+					}
+					bo, isB := v.(*ssa.BinOp)
+					if !isB {
+						okG = false
+						continue
+					}
+					op := bo.Op
+					if !pol {
+						op = negateOp(op)
+					}
+					if !((op == token.GEQ && isProd(bo.X) && isGas(bo.Y)) || (op == token.LEQ && isGas(bo.X) && isProd(bo.Y))) {
+						okG = false
+					}
+				}
+				okG = okG && nret > 0
 				r.Check(okG, "R1", e.FnKey(f)+" allowance", e.Pos(f.Pos()), "len(msgs) * per-message allowance >= gas", "the gas-allowance test is no longer len(msgs) * allowance >= gas limit")
 			} else {
 				// all-exempt: comma-ok lookup on the type URL, !ok -> return false; empty list -> false
@@ -406,6 +433,14 @@ func (e *Engine) checkBypassPredicate(r *Report, P *ssa.Function) {
 								okEmpty = true
 							}
 						}
+					}
+				}
+				if !okLookup {
+					// the two accumulating spellings: `acc = acc && ok` over every message, or a counter of exempt messages
+					// compared with len(msgs)
+					if l, em := allExemptAccumulated(f); l {
+						okLookup = true
+						okEmpty = okEmpty || em
 					}
 				}
 				r.Check(okLookup, "R1", e.FnKey(f)+" every-message", e.Pos(f.Pos()), "a message whose type URL is not in the exempt set makes the predicate false immediately", "the message-type test does not return false for every non-exempt message (e.g. only the last message decides): a transaction mixing exempt and non-exempt messages dodges the minimum fee")
@@ -759,4 +794,180 @@ func (e *Engine) lengthGuarded(X ssa.Value, at ssa.Instruction, closure map[*ssa
 		}
 	}
 	return n > 0
+}
+
+// allExemptAccumulated recognises, in the all-messages-exempt predicate f, the accumulating spellings of "every message's
+// type URL is in the exempt set":
+//
+//	F-and:   acc := <init>; for … { _, ok := set[url(msg)]; acc = acc && ok }; return acc
+//	F-count: n := 0; for … { if _, ok := set[url(msg)]; ok { n++ } }; return [n > 0 &&] n == len(msgs)
+//
+// every = the result is true only if ok held for every message; nonEmpty = it is false for the empty list.
+func allExemptAccumulated(f *ssa.Function) (every, nonEmpty bool) {
+	isOK := func(v ssa.Value) bool {
+		ex, ok := v.(*ssa.Extract)
+		if !ok || ex.Index != 1 {
+			return false
+		}
+		lk, ok := ex.Tuple.(*ssa.Lookup)
+		if !ok || !lk.CommaOk {
+			return false
+		}
+		cc0, ok := lk.Index.(*ssa.Call)
+		return ok && isMsgTypeURLCall(cc0)
+	}
+	isLenCall := func(v ssa.Value) bool {
+		c, ok := stripConv(v).(*ssa.Call)
+		if !ok {
+			return false
+		}
+		bi, ok := c.Call.Value.(*ssa.Builtin)
+		return ok && bi.Name() == "len"
+	}
+	guardedBy := func(b *ssa.BasicBlock, cond func(ssa.Value) bool) bool {
+		for _, g := range plainGuardsOfBlock(b) {
+			if g.Pol && cond(g.Cond) {
+				return true
+			}
+		}
+		// the block itself may be the branch target of the condition
+		for _, p := range b.Preds {
+			if iff, ok := p.Instrs[len(p.Instrs)-1].(*ssa.If); ok && p.Succs[0] == b && len(b.Preds) == 1 && cond(iff.Cond) {
+				return true
+			}
+		}
+		return false
+	}
+	lenPositive := func(v ssa.Value) bool {
+		bo, ok := v.(*ssa.BinOp)
+		if !ok {
+			return false
+		}
+		if z, isK := constInt(bo.Y); isK && isLenCall(bo.X) {
+			return (bo.Op == token.GTR && z == 0) || (bo.Op == token.NEQ && z == 0) || (bo.Op == token.GEQ && z == 1)
+		}
+		return false
+	}
+	for _, b := range f.Blocks {
+		ret, ok := b.Instrs[len(b.Instrs)-1].(*ssa.Return)
+		if !ok || len(ret.Results) != 1 {
+			continue
+		}
+		// ---- F-and: returned value is a loop phi acc with edges {init, upd}; upd = phi{ok under acc, false}
+		if acc, ok := ret.Results[0].(*ssa.Phi); ok {
+			var init ssa.Value
+			okUpd := false
+			for _, ed := range acc.Edges {
+				if u, ok := ed.(*ssa.Phi); ok && u != acc {
+					good, hasOK := true, false
+					for i, ue := range u.Edges {
+						if bv, isC := constBool(ue); isC {
+							if bv {
+								good = false
+							}
+							continue
+						}
+						if isOK(ue) && guardedBy(u.Block().Preds[i], func(c ssa.Value) bool { return c == ssa.Value(acc) }) {
+							hasOK = true
+							continue
+						}
+						good = false
+					}
+					if good && hasOK {
+						okUpd = true
+					}
+					continue
+				}
+				init = ed
+			}
+			if okUpd && init != nil {
+				every = true
+				if lenPositive(init) {
+					nonEmpty = true
+				}
+				if bv, isC := constBool(init); isC && !bv {
+					nonEmpty = true
+				}
+			}
+		}
+		// ---- F-count: returned value is (n == len(msgs)), possibly as phi{that under n > 0 / len > 0, false}
+		var eq *ssa.BinOp
+		guardPos := false
+		switch x := ret.Results[0].(type) {
+		case *ssa.BinOp:
+			eq = x
+		case *ssa.Phi:
+			for i, ed := range x.Edges {
+				if bo, ok := ed.(*ssa.BinOp); ok && bo.Op == token.EQL {
+					eq = bo
+					pb := x.Block().Preds[i]
+					if guardedBy(pb, func(c ssa.Value) bool {
+						if lenPositive(c) {
+							return true
+						}
+						g, ok := c.(*ssa.BinOp)
+						if !ok {
+							return false
+						}
+						z, isK := constInt(g.Y)
+						_, isPhi := g.X.(*ssa.Phi)
+						return isK && isPhi && ((g.Op == token.GTR && z == 0) || (g.Op == token.GEQ && z == 1) || (g.Op == token.NEQ && z == 0))
+					}) {
+						guardPos = true
+					}
+				} else if bv, isC := constBool(ed); !isC || bv {
+					eq = nil
+					break
+				}
+			}
+		}
+		if eq != nil && eq.Op == token.EQL {
+			cnt, other := eq.X, eq.Y
+			if isLenCall(cnt) {
+				cnt, other = other, cnt
+			}
+			ph, isPhi := stripConv(cnt).(*ssa.Phi)
+			if isPhi && isLenCall(other) {
+				// counter: 0 at entry, +1 only under ok
+				good, hasInc := true, false
+				var visit func(p *ssa.Phi, depth int)
+				seen := map[*ssa.Phi]bool{}
+				visit = func(p *ssa.Phi, depth int) {
+					if seen[p] || depth > 4 {
+						return
+					}
+					seen[p] = true
+					for i, ed := range p.Edges {
+						switch t := ed.(type) {
+						case *ssa.Const:
+							if z, isK := constInt(t); !isK || z != 0 {
+								good = false
+							}
+						case *ssa.Phi:
+							visit(t, depth+1)
+						case *ssa.BinOp:
+							one, isK := constInt(t.Y)
+							base, isB := t.X.(*ssa.Phi)
+							if t.Op == token.ADD && isK && one == 1 && isB && (guardedBy(t.Block(), isOK) || guardedBy(p.Block().Preds[i], isOK)) {
+								hasInc = true
+								visit(base, depth+1)
+							} else {
+								good = false
+							}
+						default:
+							good = false
+						}
+					}
+				}
+				visit(ph, 0)
+				if good && hasInc {
+					every = true
+					if guardPos {
+						nonEmpty = true
+					}
+				}
+			}
+		}
+	}
+	return
 }
